@@ -68,7 +68,10 @@ CLAIMS = {
              "re-initialised on the start path (fresh deques, counters/drift/FIFO clamp to 0, episode counter first); the episode filter dominates "
              "every mutation in the header-receiving entries; start() blocks only on the startup futures and takes the time origin after them; the step is handed seq / ts = the episode's own "
              "tick and scheduled start; the lifecycle tasks reach their target state on every path; attributes of the wrapped node cleared at the end of an "
-             "episode are restored at every episode start. Not decided: user startup/stop/step terminating, wall-clock starvation.",
+             "episode are restored at every episode start; the driving API as a typestate: run_until_supervisor and run_supervisor alternate inside every call and across "
+             "every ordered pair of calls that does not restart the episode (three pairs fail on the pinned tree: known finding F2); the start-up look-ahead is at least "
+             "the reference 10 ticks (it bounds the supported class). Not decided: user startup/stop/step terminating, wall-clock starvation, membership of a "
+             "graph in the supported class.",
         ref="§5 C05"),
     "C06": dict(
         technique="path call-count dataflow over branch-condition atoms (A2) plus who-may-call (A1) on resolved call sites",
